@@ -2,7 +2,7 @@
 """ll2c prototype: LLVM-14 textual IR (typed pointers) -> C for CBMC / gcc.
 Usage: ll2c.py in.ll out.c --entry f1,f2 [--models models.c]
 All pointers become char*; aggregates become C structs by value."""
-import re, sys, hashlib, argparse, subprocess
+import re, sys, os, hashlib, argparse, subprocess
 
 # ---------------------------------------------------------------- types
 class T: pass
@@ -428,6 +428,63 @@ class Emitter:
         return t
     def bits(s, t): return t.bits if isinstance(t, IntT) else None
 
+def order_blocks(blocks):
+    """Emit the basic blocks in a weak topological order (Bourdoncle): every loop's blocks are contiguous, header first, and the code
+    after a loop comes AFTER the loop body. LLVM's own layout often puts `for.cond.cleanup` + everything that follows the loop lexically
+    BEFORE `for.body`; cbmc's symex merges states only at forward gotos, so with that layout the code after the loop is executed
+    symbolically once per loop-exit state (once per unwinding) instead of once - multiplicative with nesting. Block order is semantically
+    irrelevant here: every block is labelled and ends in explicit gotos; the entry block stays first."""
+    if os.environ.get('LL2C_ORDER', 'wto') != 'wto' or len(blocks) < 3: return blocks
+    names = [b[0] for b in blocks]; idx = {n: i for i, n in enumerate(names)}
+    succ = []
+    for (bn, ins) in blocks:
+        t = ins[-1] if ins else ''
+        out = []
+        if re.match(r'^(br|switch|indirectbr|callbr)\b', t):
+            for mm in re.finditer(r'label %("(?:[^"]*)"|[-a-zA-Z$._0-9]+)', t):
+                k = idx.get(mm.group(1).strip('"'))
+                if k is not None and k not in out: out.append(k)
+        succ.append(out)
+    n = len(blocks); INF = 1 << 60
+    dfn = [0] * n; num = [0]; stack = []
+    def visit(v, part):
+        stack.append(v); num[0] += 1; dfn[v] = num[0]; head = num[0]; loop = False
+        for w in succ[v]:
+            m = visit(w, part) if dfn[w] == 0 else dfn[w]
+            if m <= head: head = m; loop = True
+        if head == dfn[v]:
+            dfn[v] = INF
+            e = stack.pop()
+            if loop:
+                while e != v:
+                    dfn[e] = 0; e = stack.pop()
+                comp = []
+                for w in succ[v]:
+                    if dfn[w] == 0: visit(w, comp)
+                part.append(comp + [v])      # lists are built in reverse
+            else:
+                part.append(v)
+        return head
+    top = []
+    import threading
+    def go(): visit(0, top)
+    old = sys.getrecursionlimit(); sys.setrecursionlimit(max(old, 4 * n + 1000))
+    try:
+        if n > 400:
+            threading.stack_size(512 * 1024 * 1024); th = threading.Thread(target=go); th.start(); th.join(); threading.stack_size(0)
+        else: go()
+    finally: sys.setrecursionlimit(old)
+    flat = []
+    def flatten(x):
+        for e in reversed(x):
+            if isinstance(e, list): flatten(e)
+            else: flat.append(e)
+    flatten(top)
+    seen = set(flat)
+    if len(seen) != len(flat) or (flat and flat[0] != 0): return blocks          # defensive: never emit a broken order
+    flat += [i for i in range(n) if i not in seen]                               # unreachable blocks last
+    return [blocks[i] for i in flat]
+
 def mask(bits):
     return None if bits in (8, 16, 32, 64, 128) else ('0x%xULL' % ((1 << bits) - 1))
 
@@ -623,7 +680,7 @@ class FnEmitter:
                     sc.exp('['); v = parse_value(sc, t); sc.exp(','); sc.exp('%'); p = sc.name(); sc.exp(']'); inc.append((v, p))
                     if not sc.acc(','): break
                 s.define(nm, t); s.phis.setdefault(bn, []).append((nm, t, inc))
-        for (bn, ins) in blocks:
+        for (bn, ins) in order_blocks(blocks):
             s.cur = bn
             s.out.append('%s: ;' % s.lab(bn))
             for ln in ins:
